@@ -29,6 +29,7 @@ REAL = {  # (real id, header keyword, construct)
     'CS0001': ('warning', 'function sh%(i)d(a) {\n    var r = a;\n    if (a == 1) {\n        var r = 2;\n        r += 1;\n    }\n    return r;\n}\n'),
     'CS0005': ('warning', 'template sa%(i)d() {\n    signal input a;\n    signal output b;\n    b <-- a >> 1;\n    b === a;\n}\n'),
     'P1000': ('error', 'include "missing_%(i)d.circom";\n'),
+    'CS0003': ('note', 'function fc%(i)d(a) {\n    var r = 0;\n    if (a < 3) {\n        r = 1;\n    }\n    return r;\n}\n'),
 }
 INFO_ID = None
 
@@ -70,6 +71,18 @@ def confirm(sc):
             return got != exp, got, exp
         finally:
             shutil.rmtree(d, ignore_errors=True)
+    if sc.get('kind') == 'multiple-main':
+        # a named file with a main component that includes a file with another main component
+        d = tempfile.mkdtemp(prefix='vreal_', dir=common.CACHE)
+        try:
+            body = 'template T() { signal input a; signal output b; b <== a; }\ncomponent main = T();\n'
+            open(os.path.join(d, 'inc.circom'), 'w').write('pragma circom 2.0.0;\n' + body)
+            open(os.path.join(d, 'a.circom'), 'w').write('pragma circom 2.0.0;\ninclude "inc.circom";\n' + body.replace('T()', 'U()').replace('template T', 'template U'))
+            rc, out = run([os.path.join(d, 'a.circom')], d)
+            got = {'exit': rc, 'kinds': sorted(headers(out)), 'summary': summary(out)}; exp = {'exit': 1, 'an error': True}
+            return not (rc == 1 and 'error' in got['kinds']), got, exp
+        finally:
+            shutil.rmtree(d, ignore_errors=True)
     if sc.get('kind') == 'lift-error':
         # a definition that cannot be lifted, with --level error: the real binary must display an error and exit non-zero
         src = {'ParameterNameCollisionError': 'pragma circom 2.0.0;\ntemplate T(a, a) { signal input x; signal output y; y <== x; }\n',
@@ -104,9 +117,8 @@ def confirm_main(sc):
         reps = []; extra_args = []; allow_real = set()
         for i, r in enumerate(sc['reports']):
             cat = r['category']
-            rid = {'Error': 'P1000', 'Warning': {'ShadowingVariable': 'CS0001', 'SignalAssignmentStatement': 'CS0005'}.get(r['code'], 'CS0001'), 'Info': None}[cat]
-            if rid is None: return False, 'unrealizable: info-level report', None
-            model_id = {'ParseFail': 'P1000', 'ShadowingVariable': 'CS0001', 'SignalAssignmentStatement': 'CS0005'}[r['code']]
+            rid = {'Error': 'P1000', 'Warning': {'ShadowingVariable': 'CS0001', 'SignalAssignmentStatement': 'CS0005'}.get(r['code'], 'CS0001'), 'Info': 'CS0003'}[cat]
+            model_id = {'ParseFail': 'P1000', 'ShadowingVariable': 'CS0001', 'SignalAssignmentStatement': 'CS0005', 'FieldElementComparison': 'CS0003'}[r['code']]
             allowed = model_id in sc['allow']
             rr = {'category': cat, 'real_id': rid, 'files': r['files'][:1], 'allowed': allowed}
             if rid == 'P1000' and not r['files']:
@@ -128,7 +140,7 @@ def confirm_main(sc):
         for i in range(3):
             if i not in user: incl[user[0]] += 'include "f%d.circom";\n' % i
         for i, src in files.items(): open(os.path.join(d, 'f%d.circom' % i), 'w').write('pragma circom 2.0.0;\n' + incl[i] + src)
-        interesting = {'CS0001', 'CS0005', 'P1000'}
+        interesting = {'CS0001', 'CS0005', 'P1000', 'CS0003'}
         args = [os.path.join(d, 'f%d.circom' % i) for i in user] + extra_args + ['--level', sc['level'].upper()]
         # the scenario's own allow list first, in its order (mapped to the real ids), then the noise suppression, ascending
         first = []
